@@ -4,35 +4,47 @@
      P id pess(0/1)
      E i set k | E i ins k | E i aggstart | aggretry | aggcancel | aggdone | rollback
      E i set k | E i del k | E i ins k
+     E i quiet                     (audit step: background work is quiet = all pending tasks run; the store column is compared with the MVCC audit)
      E i lock ks rv ce loie f early locked absent lwc res expired   (ks/locked/absent: comma lists of hex ints, "-" = empty; early is ignored: predicted)
      E i commit mode(2pc|async|1pc) prewritten sync res(ok|pfail|cfail) unnecessary
      D          drain all pending tasks      D lost   ... except for the keys whose release never reached the store
      E i rollback lost     Rollback whose synchronous release of the keys lost did not complete
-   output: R id i flags cnt agg cur prev rk valid ntasks store x(X = the expiry input mattered) primary keepalive(U|C|bound key) early(Y = the model predicts the key-exists error of the pre-loop)      and after D:  F id store *)
+   output: R id i flags cnt agg cur prev rk valid ntasks store x(X = the expiry input mattered) primary keepalive(U|C|bound key) early(Y = the model predicts the key-exists error of the pre-loop) contract(H = wf_run and the contract of C06_tracked_keys_hold_locks held so far, h = not)      and after D:  F id store *)
 let keys_of_str s = if s = "-" || s = "" then [] else List.map n_of_hex (String.split_on_char ',' s)
 let str_of_keys l = if l = [] then "-" else String.concat "," (List.sort compare (List.map hex_of_n l))
 let b s = s = "1"
 let fail_of = function
   | "ok" -> None | "conflict" -> Some FConflict | "exists" -> Some FExists | "deadlock" -> Some FDeadlock
   | "timeout" -> Some FTimeout | "nowait" -> Some FNoWait | _ -> Some FOther
+(* the extra contract of C06_tracked_keys_hold_locks (Contract.v), evaluated along the replay: [blk] = a LockKeys failed inside
+   the running attempt; [inside] = wf_run and wf_run_heldb hold for the events so far *)
+let blk = ref false and inside = ref true
+let note (s : st) (e : ev) =
+  let wf = match e with
+    | ELock (_, _, _, _, f, _) -> s.valid && N.leb s.fu f
+    | ECommit _ | ERollback | ERollbackLost _ -> not (pending s)
+    | _ -> true in
+  inside := !inside && wf && held_contractb !blk s e;
+  blk := next_blocked !blk s e
 let out ?(x = "-") ?(early = "-") id i (s : st) rk =
   let (a, c, p) = match s.agg with
     | Some a -> ("1", List.map fst a.cur, List.map fst a.prev) | None -> ("0", [], []) in
-  Printf.printf "R\t%s\t%s\t%s\t%d\t%s\t%s\t%s\t%s\t%s\t%d\t%s\t%s\t%s\t%s\t%s\n" id i (str_of_keys s.flags) (int_of_z s.cnt) a
+  Printf.printf "R\t%s\t%s\t%s\t%d\t%s\t%s\t%s\t%s\t%s\t%d\t%s\t%s\t%s\t%s\t%s\t%s\n" id i (str_of_keys s.flags) (int_of_z s.cnt) a
     (str_of_keys c) (str_of_keys p) rk (if s.valid then "1" else "0") (List.length s.tasks)
     (str_of_keys (List.map fst s.store)) x
     (match s.primary with Some p -> hex_of_n p | None -> "-")
-    (match s.ka with KUninit -> "U" | KClosed -> "C" | KRunning k -> hex_of_n k) early
+    (match s.ka with KUninit -> "U" | KClosed -> "C" | KRunning k -> hex_of_n k) early (if !inside then "H" else "h")
 let () =
   let cur = ref (init true) and id = ref "" in
   read_lines (fun line ->
     try
       match split_tab line with
-      | ["P"; i; p] -> id := i; cur := init (b p)
+      | ["P"; i; p] -> id := i; cur := init (b p); blk := false; inside := b p
       | "E" :: i :: "lock" :: ks :: rv :: ce :: loie :: f :: _observed_early :: locked :: absent :: lwc :: res :: rest ->
         let ex = (match rest with e :: _ -> b e | [] -> false) in
         let o = { lo_expired = ex; lo_locked = keys_of_str locked; lo_absent = keys_of_str absent;
                   lo_lwc = n_of_hex lwc; lo_res = fail_of res } in
+        note !cur (ELock (keys_of_str ks, b rv, b ce, b loie, n_of_hex f, o));
         let (s', rk) = lock_keys_full (keys_of_str ks) (b rv) (b ce) (b loie) (n_of_hex f) o !cur in
         (* did the expiry input matter? (the same call with the other value sends other keys) *)
         let (_, rk') = lock_keys_full (keys_of_str ks) (b rv) (b ce) (b loie) (n_of_hex f) { o with lo_expired = not ex } !cur in
@@ -46,9 +58,12 @@ let () =
                   co_prewritten = keys_of_str pw; co_sync = keys_of_str sync;
                   co_unnecessary = (match rest with u :: _ -> keys_of_str u | [] -> []);
                   co_res = (match res with "ok" -> COk | "pfail" -> CPrewriteFail | _ -> CCommitFail) } in
-        cur := step !cur (ECommit o); out !id i !cur "-"
+        note !cur (ECommit o); cur := step !cur (ECommit o); out !id i !cur "-"
       | "E" :: i :: "rollback" :: lost :: _ ->
-        cur := step !cur (ERollbackLost (keys_of_str lost)); out !id i !cur "-"
+        note !cur (ERollbackLost (keys_of_str lost)); cur := step !cur (ERollbackLost (keys_of_str lost)); out !id i !cur "-"
+      | "E" :: i :: "quiet" :: _ ->
+        (* the client's background work went quiet (audit step): every pending task has run *)
+        cur := drain (nat_of_int (List.length !cur.tasks + 1)) !cur; out !id i !cur "-"
       | "E" :: i :: op :: rest ->
         let e = match op, rest with
           | "set", k :: _ -> ESet (n_of_hex k) | "del", k :: _ -> EDel (n_of_hex k) | "ins", k :: _ -> EInsert (n_of_hex k)
@@ -57,7 +72,7 @@ let () =
           | "aggstart", _ -> EAggStart | "aggretry", _ -> EAggRetry | "aggcancel", _ -> EAggCancel
           | "aggdone", _ -> EAggDone | "rollback", _ -> ERollback | "nop", _ -> ERun (nat_of_int 1000)
           | _ -> failwith ("bad op " ^ op) in
-        cur := step !cur e; out !id i !cur "-"
+        note !cur e; cur := step !cur e; out !id i !cur "-"
       | ["D"] ->
         cur := drain (nat_of_int (List.length !cur.tasks + 1)) !cur;
         Printf.printf "F\t%s\t%s\t%d\n" !id (str_of_keys (List.map fst !cur.store)) (List.length !cur.tasks)
